@@ -284,11 +284,17 @@ func (g *gen) NewCase(id int, thorough bool) *Case {
 	if scanState {
 		nrows = 8 + g.pick(7)
 	}
+	// merge shape: several files whose blocks really merge into one (one partition, one minmax key set, no row-group limit
+	// in the way), queried by token - the merged block's filters are rebuilt from the rows of all its sources
+	mergeShape := !scanState && g.pick(6) == 0
+	if mergeShape {
+		nrows = 3 + g.pick(4)
+	}
 	c.Tok = "ws"
-	if g.pick(4) == 0 {
+	if g.pick(4) == 0 || mergeShape && g.pick(2) == 0 {
 		c.Tok = "whole"
 	}
-	c.PartOn = g.pick(3) != 0 && !scanState
+	c.PartOn = g.pick(3) != 0 && !scanState && !mergeShape
 	switch g.pick(4) {
 	case 0:
 		c.MMIdx = []string{}
@@ -301,13 +307,16 @@ func (g *gen) NewCase(id int, thorough bool) *Case {
 	if scanState {
 		groups = 1
 	}
+	if mergeShape {
+		groups = 2 + g.pick(2)
+	}
 	for i := 0; i < nrows; i++ {
 		r := Row{Doc: 1 + g.pick(len(g.cat.Docs)), ID: fmt.Sprintf("r%d", i+1), Copies: 1, Vals: map[string]int{"k1": -1, "k2": -1}}
 		if c.PartOn && g.pick(4) != 0 {
 			r.Part = 1 + g.pick(3)
 		}
 		for _, k := range []string{"k1", "k2"} {
-			if g.pick(3) != 0 {
+			if g.pick(3) != 0 || mergeShape {
 				r.Vals[k] = g.pick(10)
 			}
 		}
@@ -316,6 +325,9 @@ func (g *gen) NewCase(id int, thorough bool) *Case {
 		}
 		c.Rows = append(c.Rows, r)
 		c.Flush = append(c.Flush, 1+g.pick(groups))
+		if mergeShape && i < groups {
+			c.Flush[i] = i + 1 // every file exists
+		}
 	}
 	c.Merges = []int{0, 0, 1, 1, 2, 3}[g.pick(6)]
 	// query
@@ -363,6 +375,16 @@ func (g *gen) NewCase(id int, thorough bool) *Case {
 	}
 	if scanState {
 		d.MRGRows, d.MBRows, d.Batch = 1000, 1000, 0
+	}
+	if mergeShape {
+		if c.Merges == 0 {
+			c.Merges = 1 + g.pick(2)
+		}
+		d.MRGRows, d.MBRows, d.Batch, d.MergeMRG, d.MergeFiles = 1000, 1000, 0, 1000, 10
+		c.Q.Pre = node("nil")
+		if c.Q.Bloom.T == "nil" {
+			c.Q.Bloom = g.bloomTree(c, 2)
+		}
 	}
 	if d.Batch > 0 {
 		// many copies of one row: results larger than a delivery batch, several batches per block
